@@ -152,4 +152,15 @@ META = {
         minimums={"quick": {"programs": 250, "loads": 6000, "constructor_calls_logged": 6000, "distinct_nontrivial": 2500, "kind_func": 20, "kind_init": 40, "pkind_po": 20, "pkind_ko": 100}},
         assumptions=["adaptix may pass the default explicitly for absent fields: the oracle judges the resulting object and the binding, not which arguments are omitted"],
     ),
+    "C14": _m(
+        "EXHAUSTIVE over ordered pairs of a pool of 51 field types (scalars incl. bool/int subclassing, same origin with different arguments, fixed / variadic / empty tuples, "
+        "abstract and concrete iterables, dicts, optionals and unions with 2-3 cases containing them, models incl. a subclass model and a generic model with different "
+        "arguments, NewType, Annotated, Literal) as the type of the same-named field of a source and a destination model (2601 pairs; thorough: also inside List, "
+        "Optional and Dict values = 10404; quick samples the wrappers) + 6 link-policy cases. Oracle: produced => inside the documented relation (reference `coercible`) and "
+        "witness values conform to the destination at run time; refused => ProviderNotFoundError. Completeness is counted, not asserted. distinct = (S, D, wrapper); non-trivial = S is not D",
+        cases=(20, 40), budget=(50, 420),
+        minimums={"quick": {"pairs": 4000, "produced": 150, "refused": 3000, "witness_conversions": 150, "policy_cases": 6, "distinct_nontrivial": 3000}},
+        exhaustive={"quick": True, "thorough": True},
+        assumptions=["reference relation = docs/conversion/tutorial.rst 'Type coercion' (type equality via an independent structural description of hints)"],
+    ),
 }
